@@ -225,7 +225,8 @@ def decode_arg(job, a):
         models = importlib.import_module(job["package"] + ".models")
         return getattr(models, a["cls"])(a["v"])
     if k == "files":
-        return {n: (n, base64.b64decode(v)) for n, v in a["v"].items()}
+        import io
+        return {n: io.BytesIO(base64.b64decode(v)) for n, v in a["v"].items()}
     raise ValueError(k)
 
 
@@ -303,8 +304,15 @@ def task_calls(job, calls) -> list:
             cls = getattr(m, call["cls"])
             inst = cls(tr, base_url)
             fn = getattr(inst, call["method"])
-            kwargs = {k: decode_arg(job, v) for k, v in call.get("args", {}).items()}
-            pos = [decode_arg(job, v) for v in call.get("pos", [])]
+            try:
+                kwargs = {k: decode_arg(job, v) for k, v in call.get("args", {}).items()}
+                pos = [decode_arg(job, v) for v in call.get("pos", [])]
+            except BaseException as e:
+                out["arg_error"] = err(e)
+                out["outcome"] = {"kind": "arg_error"}
+                out["requests"] = []
+                results.append(out)
+                continue
 
             async def go():
                 try:
